@@ -32,6 +32,10 @@ CHECKS = {
  "C01": dict(cat="exploration", tech="bounded-exhaustive generate-and-type-check: program universe (type kernels, every identifier of a 70-name alphabet at every name position, colliding name pairs, include/namespace/service structures) x every documented option alone, naming styles, templates, both backends; go/types over all generated packages plus go build + go vet",
    text="~1900 (thorough ~7000) (program, configuration) pairs are generated by the thriftgo built from the working tree; for every accepted pair every written .go file must parse and all generated packages of the pair must type-check together against the pinned runtime libraries (go/types with export data of the real dependencies: redeclarations, missing/unused imports, unused variables/labels, unresolved selectors, two package names in one directory), and the kernel/structure items are additionally built and vetted with the real toolchain. Thorough adds the wide kernel under every option and all unordered pairs of boolean options on the interplay program.",
    note="A rejected pair (exit != 0) is never a violation here (C04's subject). code_ref* options are not exercised (need an idl-ref.yaml and a referenced module); streaming code is generated only for IDLs without streaming annotations (kitex is not in the module cache). Nine recorded findings.", ref="§3 C01"),
+
+ "C18": dict(cat="exploration", tech="bounded-exhaustive generate-compile-run: all ordered pairs of each struct's value domain through the real generated DeepEqual vs a reference structural equality; all element lists <=3 for the set-uniqueness check",
+   text="With gen_deep_equal (also combined with value_type_in_container and validate_set=false; thorough: 7 configurations) every single-field kernel (every field shape x {default, optional}) and nested/multi-field structs are generated, compiled and driven: for all ordered pairs of the value domain DeepEqual must equal the reference equality (pairs differing in one leaf at any depth, nil vs empty, optional presence, map size, equal-size maps with different keys, struct-typed map keys), copies must be equal, nil receivers/arguments must not panic, and Write of a set must fail exactly when two elements are equal.",
+   note="NaN, -0.0 and (unset optional binary vs set empty binary) are not judged. Trusted: the reflection driver and the 60-line reference equality.", ref="§3 C18"),
 }
 NA = {}
 def main():
